@@ -192,6 +192,51 @@ func runAlias() {
 	}
 }
 
+// runGetter: readers iterate the slice GetNotarizedBlocks returned while writers replace the slot
+// in place (same-rank re-proposal with another hash, UpdateNotarizedBlock); n blocks in the round.
+func runGetter(n int) {
+	prep()
+	for it := 0; it < 40; it++ {
+		r := round.NewRound(7)
+		var first *block.Block
+		for i := 0; i < n; i++ {
+			b := newBlock()
+			b.Hash, b.RoundRank = fmt.Sprintf("g%d", i), i
+			if i == 0 {
+				first = b
+			}
+			r.AddNotarizedBlock(b)
+		}
+		var wg sync.WaitGroup
+		wg.Add(2)
+		go func() {
+			defer wg.Done()
+			for k := 0; k < 50; k++ {
+				s := r.GetNotarizedBlocks()
+				for j := 0; j < 20; j++ {
+					for _, b := range s {
+						_ = b.Hash
+					}
+				}
+			}
+		}()
+		go func() {
+			defer wg.Done()
+			for k := 0; k < 50; k++ {
+				nb := newBlock()
+				nb.Hash, nb.RoundRank = fmt.Sprintf("w%d", k), 0
+				r.AddNotarizedBlock(nb)
+				if first != nil {
+					ub := newBlock()
+					ub.Hash, ub.RoundRank = nb.Hash, 0
+					r.UpdateNotarizedBlock(ub)
+				}
+			}
+		}()
+		wg.Wait()
+	}
+}
+
 func runValidateTransactions() {
 	conch.Setup()
 	defer conch.Cleanup()
@@ -230,7 +275,9 @@ func main() {
 		tf, ms, _ := strings.Cut(*one, ":")
 		typ, _, _ := strings.Cut(tf, ".")
 		ma, mb, _ := strings.Cut(ms, "/")
-		if ma == "alias" {
+		if strings.HasPrefix(ma, "getter") {
+			runGetter(int(ma[len(ma)-1] - '0'))
+		} else if ma == "alias" {
 			runAlias()
 		} else if typ == "ValidateTransactions" {
 			runValidateTransactions()
